@@ -47,8 +47,12 @@ type compSess struct {
 	pinned bool // the op line asks for the model of the tree before fixes/C07-stale-thinker.diff
 	// a call whose context was already cancelled on entry: after the fix it returns at once, without effects
 	inStale     bool
+	// the call in progress got a verdict the REAL check engine cannot give: a win within one ply on the empty board
+	// (the stub's verdicts are sticky across undos); a crash of such a call is no crash of the real bot
+	inUnreal, unrealDead bool
 	inSent      int
 	inNotes     string
+	notesOff    bool // on a tree without fixes/C07-fpa-record-notes.diff: a live GetMove call used rule notes that are not those of the record
 	staleEffect bool // such a call did something (command sent, rule notes changed, searcher asked, move returned, panic)
 }
 
@@ -122,13 +126,11 @@ func compStart(kind, arg, colour string, size, secs int, gameNo string, pinned b
 		cs.calls++
 		cs.inP, cs.inCtx = p, ctx
 		cs.inStale, cs.inSent, cs.inNotes = ctx.Err() != nil, len(b.sent), cs.c.VerifRuleNotes()
-		chk := cs.chk
-		if p.MoveNumber() == 0 && chk[0] >= int64(ai.WinThreshold) && chk[1] <= 1 {
-			// a check engine never claims a win in one on the start position (no road on an empty board); with such a
-			// verdict waitUndo would index Positions[len-2] of a one-position record (Tak.Compose.saneChk)
-			chk = [3]int64{0, 3, 0}
+		cs.inUnreal = p.MoveNumber() == 0 && cs.chk[0] >= int64(ai.WinThreshold) && cs.chk[1] <= 1
+		if ctx.Err() == nil && cs.c.VerifNotesOutOfStep(p) {
+			cs.notesOff = true
 		}
-		return []fpa.VerifChk{{V: chk[0], Depth: int(chk[1])}, {V: chk[2]}}, true
+		return []fpa.VerifChk{{V: cs.chk[0], Depth: int(cs.chk[1])}, {V: cs.chk[2]}}, true
 	}
 	cs.c.Search = func(ctx context.Context, p *tak.Position) tak.Move {
 		q := &aiCall{p: p, ctx: ctx, gate: make(chan tak.Move)}
@@ -151,6 +153,9 @@ func compStart(kind, arg, colour string, size, secs int, gameNo string, pinned b
 			cs.staleEffect = true
 		}
 		if panicked && !cs.torn {
+			if !cs.dead && cs.inUnreal {
+				cs.unrealDead = true
+			}
 			cs.dead = true
 		}
 		b.mu.Unlock()
@@ -191,8 +196,16 @@ func compStart(kind, arg, colour string, size, secs int, gameNo string, pinned b
 
 func (cs *compSess) status() string {
 	cs.b.mu.Lock()
-	d, st := cs.dead, cs.staleEffect && !cs.pinned
+	d, st, off, unreal := cs.dead, cs.staleEffect && !cs.pinned, cs.notesOff, cs.unrealDead
 	cs.b.mu.Unlock()
+	if off {
+		// never printed by the model (it is of the patched code), never set on a patched tree: known finding C07-fpa-resume-panic
+		return "notes-" + cs.statusInner(d, st, unreal)
+	}
+	return cs.statusInner(d, st, unreal)
+}
+
+func (cs *compSess) statusInner(d, st, unreal bool) string {
 	pre := ""
 	if st {
 		// never printed by the model: GetMove ran, with effects, for a thinker whose invocation was over
@@ -202,7 +215,7 @@ func (cs *compSess) status() string {
 		return "hang"
 	}
 	if d {
-		if pre == "" && !cs.pinned {
+		if pre == "" && !cs.pinned && !unreal {
 			// a thinker of the CURRENT invocation panicked: the real process is gone in the middle of the server's game.
 			// The model of the code as it is prints plain `tpanic`; the cause keeps known findings apart from new crashes.
 			cause := strings.Map(func(r rune) rune {
